@@ -26,14 +26,24 @@ RULE = ("per near-earth TLE (repo test TLEs + generated LEO sets, epoch at and o
         "(times += step, times[i] = ..., base array of the view advanced or one element of it set, observer buffers moved; "
         "sometimes no change), each result compared byte-wise with a FRESH object given a FRESH copy of the same values; "
         "arguments, Tle.__dict__ and every "
-        "module-level data value of orbital/astronomy/tlefile are hashed before/after every call; (2) real threads under a "
+        "module-level data value of orbital/astronomy/tlefile are hashed before/after every call; (1c) histories of <= 10 "
+        "queries that differ in the REPRESENTATION of the time argument: the first get_orbit_number of the object mostly gets a "
+        "datetime64 coarser than microseconds ([s], [m], [h], [D]), later queries datetime / datetime64[us] / [ns] / [ms] / coarse "
+        "units of other instants, node-time/position/sub-point/look queries before and in between, each compared byte-wise with "
+        "the same query on a FRESH object; (2) real threads under a "
         "deterministic scheduler (sys.settrace, semaphores; a switch happens only before a source line of pyorbital/orbital.py): "
         "for two concurrent get_orbit_number calls ALL single pre-emption points in get_orbit_number's own frame, the first "
         "occurrence(s) of every distinct source line below it, a random sample of the rest, two-pre-emption schedules "
         "A^k B^m A* B* over own-frame points, three-thread schedules A^k B* A^m C* A* (a complete call before and after a few "
         "lines of a pre-empted one), get_orbit_number against every other query in both roles, sampled multi-pre-emption "
         "schedules (3 threads in thorough; sometimes on a warmed object), plus free-running threads with a 1 us switch "
-        "interval; every thread's result compared byte-wise with the fresh single-threaded result; (3) correspondence: the "
+        "interval; (2b) one get_next_passes pre-empted at the first occurrence of every source line of get_next_passes/_elevation/"
+        "_elevation_inv/_get_root/_get_max_parab (plus sampled later ones; quick tier: a sample with every frame represented) while "
+        "ANOTHER get_next_passes with a different observer/start/length/horizon runs to completion, both roles; one propagating "
+        "query (get_position/get_lonlatalt/get_observer_look, scalar or array times) pre-empted at the first occurrences of the "
+        "lines of _SGDP4.propagate/_Keplerians.calculate and of the helpers below them while another propagating query for "
+        "another time runs to completion; every thread's result (an exception is a result) compared byte-wise with the fresh "
+        "single-threaded result; (3) correspondence: the "
         "observed load/store sequence of orbit_elements.an_time/an_period (threads and sequential histories) must be exactly "
         "the trace PV.Model.Cache produces when replayed in the observed thread order (driver op c18vis), the store "
         "statement used must be the one a fresh call uses, and every stored/loaded value must be the canonical one; "
@@ -186,6 +196,8 @@ def _times(q, epoch):
     t = epoch + np.timedelta64(us[0], "us")
     if q["tk"] == "py":
         return t.astype(dt.datetime)
+    if q.get("unit"):                                  # the caller's clock resolution: datetime64[s], [m], [h], [ms], [ns] ...
+        t = t.astype("datetime64[%s]" % q["unit"])
     return t
 
 
@@ -219,6 +231,8 @@ def call(orb, q, args):
     try:
         if q["m"].startswith("mod_"):                  # module-level function of pyorbital.orbital
             return getattr(_mods()[0], q["m"][4:])(*args)
+        if q.get("horizon") is not None:               # get_next_passes(..., horizon=<elevation of the local horizon>)
+            return getattr(orb, q["m"])(*args, horizon=float(q["horizon"]))
         return getattr(orb, q["m"])(*args)
     except Exception as e:  # noqa  an exception is an outcome like any other; it must be the same one
         return e
@@ -469,6 +483,49 @@ def gen_history(rng, pool):
             hist.append(hist[-1])
         else:
             hist.append(rng.choice(pool))
+    return hist
+
+
+# ---------------------------------------------------------------- (1c) the representation of the time argument
+COARSE_UNITS = ["s", "s", "m", "h", "D"]          # clocks coarser than the epoch's microseconds
+FINE_UNITS = [None, None, "ns", "ms"]             # None: datetime64[us] as it comes out of epoch + timedelta64
+
+
+def time_repr(rng, coarse=None):
+    """how a caller hands over an instant: datetime.datetime, or numpy.datetime64 of some unit"""
+    if coarse is None:
+        coarse = rng.random() < 0.35
+    if coarse:
+        return {"tk": "np", "unit": rng.choice(COARSE_UNITS)}
+    if rng.random() < 0.4:
+        return {"tk": "py"}
+    u = rng.choice(FINE_UNITS)
+    return {"tk": "np", "unit": u} if u else {"tk": "np"}
+
+
+def gen_repr_history(rng):
+    """<= 10 queries on one object that differ in the REPRESENTATION of their time argument: the first get_orbit_number
+    (the query that initialises the lazily kept node time/period) mostly receives a datetime64 coarser than microseconds,
+    the later ones datetime.datetime / datetime64[us] / [ns] / [ms] / coarse units of other instants; queries that do not
+    touch that state may come first or in between.  Every answer must be the one a fresh object gives to the same query."""
+    day = 86400 * 10 ** 6
+
+    def orbitq(rep):
+        return dict({"m": "get_orbit_number", "us": [rng.randrange(-day, 3 * day)], "tbus": rng.random() < 0.2,
+                     "as_float": rng.random() < 0.75}, **rep)
+
+    def otherq(rep):
+        m = rng.choice(["get_last_an_time", "get_position", "get_lonlatalt", "get_observer_look"])
+        q = dict({"m": m, "us": [rng.randrange(-day, day)]}, **rep)
+        if m == "get_position":
+            q["normalize"] = rng.random() < 0.5
+        if m == "get_observer_look":
+            q.update(lon=[rng.uniform(-180, 180)], lat=[rng.uniform(-90, 90)], alt=[rng.uniform(0, 3)])
+        return q
+    hist = [otherq(time_repr(rng)) for _ in range(rng.choice([0, 0, 1, 2]))]
+    hist.append(orbitq(time_repr(rng, coarse=rng.random() < 0.75)))
+    for _ in range(rng.randrange(2, 7)):
+        hist.append(orbitq(time_repr(rng)) if rng.random() < 0.75 else otherq(time_repr(rng)))
     return hist
 
 
@@ -1098,6 +1155,142 @@ def free_running(ctx, sat, on_violation, rounds, budget, nthreads=4):
         sys.setswitchinterval(old)
 
 
+# ---------------------------------------------------------------- (2b) overlapping queries that share more than the cache
+PASS_FRAMES = ("get_next_passes", "_elevation", "_elevation_inv", "_get_root", "_get_max_parab")
+PROP_FRAMES = ("propagate", "calculate")
+
+
+def pass_query(rng, sat):
+    """A pass search whose station lies near the ground track some minutes after its start (so that the refinement of
+    horizon crossings and culmination runs), with its own start time, length, altitude and horizon."""
+    np = _np()
+    us = rng.randrange(-6 * 3600 * 10 ** 6, 6 * 3600 * 10 ** 6)
+    ahead = rng.randrange(8 * 60, 50 * 60) * 10 ** 6
+    dlon, dlat = rng.uniform(-4, 4), rng.uniform(-4, 4)
+    try:
+        lon, lat, _ = _guarded(lambda: new_orbital(sat.tle).get_lonlatalt(sat.epoch + np.timedelta64(us + ahead, "us")))
+        lon, lat = float(lon) + dlon, float(lat) + dlat
+    except (_Timeout, Exception):  # noqa  no sub-point to aim at: any station will do
+        lon, lat = rng.uniform(-180, 180), rng.uniform(-60, 60)
+    if not (abs(lon) <= 360 and abs(lat) <= 85):
+        lon, lat = rng.uniform(-180, 180), rng.uniform(-60, 60)
+    q = {"m": "get_next_passes", "tk": "py", "us": [us], "length": rng.choice([1, 1, 2]),
+         "lon": [(lon + 180.0) % 360.0 - 180.0], "lat": [lat], "alt": [rng.uniform(0, 2)]}
+    h = rng.choice([None, None, 5, 10, 2.5])
+    if h is not None:
+        q["horizon"] = h
+    return q
+
+
+def has_passes(ref):
+    return ref is not None and ref[0][0] == "list" and len(ref[0][1]) > 0
+
+
+def frame_points(ll, firsts, frames, rng, extra):
+    """pre-emption points of a solo run: the first occurrence of every distinct source line of the named frames, plus a
+    sample of `extra` later line events of those frames"""
+    fs = [i for i in firsts if ll[i][0] in frames]
+    rest = [i for i, (f, _) in enumerate(ll) if f in frames and i not in set(fs)]
+    return sorted(set(fs) | set(sample(rng, rest, extra)))
+
+
+def stratified(rng, ll, pts, frames, quota):
+    """at most `quota` of the points, every named frame represented (its first lines first), the rest drawn at random"""
+    if len(pts) <= quota:
+        return pts
+    per = max(1, quota // (2 * len(frames)))
+    keep = set()
+    for f in frames:
+        keep |= set([i for i in pts if ll[i][0] == f][:per])
+    rest = [i for i in pts if i not in keep]
+    keep |= set(sample(rng, rest, max(0, quota - len(keep))))
+    return sorted(keep)
+
+
+def overlapping(ctx, sats, judge, budget, scale=1):
+    """Single pre-emption schedules for queries that run through the same helper objects:
+    (a) one get_next_passes pre-empted at the first occurrence of every source line of its own frame and of its
+        refinement callbacks (_elevation, _elevation_inv, _get_root, _get_max_parab; plus sampled later ones) while ANOTHER
+        get_next_passes with a different observer / start / length / horizon runs to completion; both roles;
+    (b) one propagating query (get_position, get_lonlatalt, get_observer_look; scalar and array times) pre-empted at the first
+        occurrence of every source line of _SGDP4.propagate / _Keplerians.calculate (plus sampled lines below them) while
+        another propagating query for another time (other shape) runs to completion.
+    Every thread's result must be the fresh single-threaded one, byte for byte; an exception in a thread is a result."""
+    rng = ctx.rng
+    thorough = ctx.tier == "thorough"
+    found0 = len(ctx.violations)
+    part = [budget]
+
+    def go(sat, qs, plan, label):
+        if len(ctx.violations) - found0 > 25 or part[0].over():
+            return
+        try:
+            r = run_schedule(sat, qs, plan)
+        except SchedulerError:
+            ctx.count("scheduler_aborted")
+            r = run_schedule(sat, qs, plan)
+        judge(sat, qs, plan, r, None)
+        ctx.bump("schedules", label)
+
+    for si, sat in enumerate(sats):
+        satb = budget.share(len(sats) - si)                     # every element set gets its share, 2/3 of it for (a)
+        part[0] = satb.share(2, 2)
+        # --- (a) two pass searches with different arguments
+        for _pair in range((2 if thorough else 1) * scale):
+            qa = qb = None
+            for _try in range(6):                               # a search that finds at least one pass
+                q = pass_query(rng, sat)
+                if has_passes(sat.fresh(q)):
+                    qa = q
+                    break
+            for _try in range(6):
+                q = pass_query(rng, sat)
+                if sat.fresh(q) is not None and qa is not None and qkey(dict(q, us=0)) != qkey(dict(qa, us=0)):
+                    qb = q
+                    if has_passes(sat.fresh(q)):
+                        break
+            if qa is None or qb is None:
+                ctx.count("pass_pair_skipped")
+                continue
+            for (x, y) in ((qa, qb), (qb, qa)):
+                n, _own, firsts, ll = points_of(sat, x, occ=2 if thorough else 1)
+                lead = x is qa
+                pts = frame_points(ll, firsts, PASS_FRAMES, rng, (30 if thorough else 6) * scale if lead else 4)
+                if not thorough:
+                    pts = stratified(rng, ll, pts, PASS_FRAMES, (32 if lead and si == 0 else 12) * scale)
+                elif not lead:
+                    pts = stratified(rng, ll, pts, PASS_FRAMES, 40)
+                ctx.bump("schedule_points", "source lines executed by one fresh get_next_passes", n)
+                for k in pts:
+                    go(sat, [x, y], [[0, k], [1, INF]], "passes pre-empted by passes of another observer/start/horizon")
+        part[0] = satb.share(1)
+        # --- (b) two propagations for different times
+        day = 86400 * 10 ** 6
+
+        def propq():
+            m = rng.choice(["get_position", "get_lonlatalt", "get_observer_look"])
+            n = rng.choice([1, 1, 3, 5])
+            q = {"m": m, "tk": "arr" if n > 1 else rng.choice(["np", "py"]), "us": [rng.randrange(-day, day) for _ in range(n)]}
+            if m == "get_position":
+                q["normalize"] = rng.random() < 0.5
+            if m == "get_observer_look":
+                q.update(lon=[rng.uniform(-180, 180) for _ in range(n)], lat=[rng.uniform(-80, 80) for _ in range(n)],
+                         alt=[rng.uniform(0, 3) for _ in range(n)])
+            return q
+        for _pair in range((6 if thorough else 3) * scale):
+            qa, qb = propq(), propq()
+            if sat.fresh(qa) is None or sat.fresh(qb) is None:
+                continue
+            n, _own, firsts, ll = points_of(sat, qa, occ=1)
+            pts = frame_points(ll, firsts, PROP_FRAMES, rng, 0)
+            below = [i for i in firsts if i not in set(pts) and pts and pts[0] <= i <= pts[-1]]
+            pts = sorted(set(pts) | set(sample(rng, below, (40 if thorough else 10) * scale)))
+            if not thorough:
+                pts = sample(rng, pts, 20 * scale)
+            for k in pts:
+                go(sat, [qa, qb], [[0, k], [1, INF]], "propagation pre-empted by a propagation for another time")
+
+
 # ---------------------------------------------------------------- protocol stages
 def spied_history(sat, hist):
     """A history on one object with the two slots observed; event 'thread' ids are positions in the history."""
@@ -1224,6 +1417,23 @@ def oracle(ctx):
     budget = Budget(ctx, 6 if quick else 40)
     for si, sat in enumerate(sats[:2]):
         free_running(ctx, sat, viol, ctx.size(10, 200), budget.share(2 - si))
+    if len(ctx.violations) > 20:
+        drain()
+        return
+    # (2b) overlapping pass searches with different arguments; overlapping propagations for different times
+    overlapping(ctx, sats[:ctx.size(2, 3)], judge, Budget(ctx, (14 if not ctx.intensified else 30) if quick else 90), scale=scale)
+    # (1c) histories whose queries differ in the representation (datetime, datetime64 unit) of the time argument
+    budget = Budget(ctx, (5 if not ctx.intensified else 12) if quick else 30)
+    for sat in sats:
+        for _ in range(ctx.size(25, 250) * scale):
+            if budget.over() or len(ctx.violations) > 20:
+                break
+            hist = gen_repr_history(ctx.rng)
+            run_history(sat, hist, viol, count=lambda: ctx.count("eval_history_query"))
+            ctx.distinct((sat.tle[0][2:7], "h", tuple(qkey(q) for q in hist)))
+            ctx.bump("history_length", len(hist))
+            ctx.bump("first_orbit_number_time", next("%s%s" % (q["tk"], "[%s]" % q["unit"] if q.get("unit") else "")
+                                                     for q in hist if is_orbit(q)))
     drain()
     m = module_state()
     ctx.sample({"tles": [s.tle[0][2:7] for s in sats], "module_level_values_hashed": len(m)})
@@ -1236,6 +1446,7 @@ def match_known(entry, v):
 def _replay_one(inp, found, corr):
     """re-run one recorded case; `found` collects (kind, observed, required)"""
     sat = Sat(inp["tle"])
+    sat.canon()                                          # fixes sat.branch (the store statement a fresh call uses)
 
     def viol(kind, c, observed, required, site):
         found.append((kind, observed, required))
